@@ -508,3 +508,38 @@ func (s *rawReader) takeWrong(n int) []byte {
 
 // UseRawReader keeps the method reachable.
 func UseRawReader(s *rawReader) []byte { return s.takeWrong(2) }
+
+// G-NILFIELD: the slice the decoder fills by index is never made.
+type nilFieldRec struct {
+	Count  int
+	Values []uint32
+}
+
+func decodeNilField(data []byte) *nilFieldRec {
+	rec := nilFieldRec{Count: len(data)}
+	for i := 0; i < rec.Count; i++ {
+		rec.Values[i] = uint32(data[i])
+	}
+	return &rec
+}
+
+// UseNilField keeps the function reachable.
+func UseNilField(data []byte) *nilFieldRec { return decodeNilField(data) }
+
+// L-PROGRESS: the short-unit case goes round without moving the cursor.
+func walkStuck(sample []byte) int {
+	n := 0
+	pos := 0
+	for pos < len(sample)-1 {
+		l := int(sample[pos])
+		if l < 2 {
+			continue
+		}
+		pos += 1 + l
+		n++
+	}
+	return n
+}
+
+// UseWalkStuck keeps the function reachable.
+func UseWalkStuck(b []byte) int { return walkStuck(b) }
